@@ -49,7 +49,11 @@ type traceCfg struct {
 	Compact    bool
 	Reopen     bool
 	FaultEvery int // >0: every n-th fsync/write at the fault sites fails (fault tier)
-	Dir        string
+	// CloseWindow: no background maintenance in the last round and a final tx made of a non-indexable
+	// entry only, so that the clean Close finds unflushed index entries and a logical time advanced
+	// without content (the window between the index's timestamp file and its final flush)
+	CloseWindow bool
+	Dir         string
 }
 
 func (cf traceCfg) options() *store.Options {
@@ -173,6 +177,10 @@ func genTrace(c *fw.Ctx, data []byte) {
 					return
 				default:
 				}
+				if cf.CloseWindow && round == rounds-1 {
+					time.Sleep(time.Millisecond)
+					continue
+				}
 				switch r.IntN(4) {
 				case 0:
 					st.FlushIndexes(float32(r.IntN(101)), r.IntN(2) == 0)
@@ -212,6 +220,21 @@ func genTrace(c *fw.Ctx, data []byte) {
 			}
 			j.Mark("reopened", 0, [32]byte{})
 		}
+	}
+	if cf.CloseWindow && cf.HdrVersion == 1 {
+		// a tx without indexable entries moves the index's logical time through IncreaseTs
+		md := store.NewKVMetadata()
+		md.AsNonIndexable(true)
+		ctx, cancel := context.WithTimeout(context.Background(), 20*time.Second)
+		if tx, err := st.NewWriteOnlyTx(ctx); err == nil {
+			es := []ledger.Entry{{Key: []byte("non-indexable-tail"), Value: []byte("x"), MD: ledger.MDBytes(md)}}
+			tx.Set(es[0].Key, md, es[0].Value)
+			if hdr, err := tx.Commit(ctx); err == nil {
+				led.Ack(hdr, es)
+				j.Mark("ack", hdr.ID, hdr.Alh())
+			}
+		}
+		cancel()
 	}
 	j.Mark("close-begin", 0, [32]byte{})
 	st.Close()
@@ -691,6 +714,9 @@ func Run(c *fw.Ctx) {
 		if c.Thorough() && i%6 == 5 {
 			cf.FaultEvery = 37 + r.IntN(60)
 		}
+		if i%3 == 0 {
+			cf.CloseWindow, cf.HdrVersion = true, 1
+		}
 		if cf.Embedded {
 			cf.IOConc = 1
 		}
@@ -730,6 +756,19 @@ func Run(c *fw.Ctx) {
 			}
 			for k := 0; k < 150; k++ {
 				pts[pr.IntN(n+1)] = true
+			}
+			// every point inside a clean Close (ts file, final flushes, file closes): few and rarely hit at random
+			inClose := false
+			for i, e := range tr.Events {
+				if e.Op == hook.OpMark && e.Kind == "close-begin" {
+					inClose = true
+				}
+				if inClose {
+					pts[i] = true
+				}
+				if e.Op == hook.OpMark && e.Kind == "close-end" {
+					inClose = false
+				}
 			}
 		}
 		ps := make([]int, 0, len(pts))
